@@ -3,6 +3,14 @@
 import json, os, sys
 sys.path.insert(0, os.path.dirname(os.path.abspath(__file__)))
 from vlib import manifest_data as md
+import glob, importlib
+for _m in sorted(glob.glob(os.path.join(os.path.dirname(os.path.abspath(__file__)), "vlib", "reg_C*.py"))):
+    mod = importlib.import_module("vlib." + os.path.basename(_m)[:-3])
+    for pid, c in getattr(mod, "MANIFEST", {}).items():
+        md.CHECKS[pid] = c
+        md.ENGINES_SERVE.setdefault(c["engine"], []).append(pid)
+for e in md.ENGINES:
+    e["serves_properties"] = sorted(set(e.get("serves_properties", []) + md.ENGINES_SERVE.get(e["name"], [])))
 props = [json.loads(l) for l in open(os.path.join(os.path.dirname(os.path.abspath(__file__)), "properties.jsonl"))]
 ids = [p["id"] for p in props]
 checks = []
